@@ -181,7 +181,12 @@ impl HexNumber {
     /// Computes the actual numerical value represented by this hexadecimal number.
     pub fn compute_value(&self) -> f64 {
         if let Some((exponent, _)) = self.exponent {
-            (self.integer * 2_u64.pow(exponent)) as f64
+            if self.integer == 0 {
+                0.0
+            } else {
+                // scaling by a power of two is exact (or overflows to infinity) in f64
+                (self.integer as f64) * 2_f64.powf(exponent as f64)
+            }
         } else {
             self.integer as f64
         }
